@@ -34,3 +34,7 @@ os.makedirs("/verif/corpus", exist_ok=True)
 for k, v in corpus.items():
     open(f"/verif/corpus/{k}.ops", "w").write("\n".join(v) + "\n")
 print({k: len(v) for k, v in corpus.items()})
+
+# leave the translator-generated cfg model in the state of the unchanged tree
+import subprocess as _sp
+_sp.run(["python3", "/verif/tools/cfg_translate.py", "/repo"], stdout=_sp.DEVNULL)
